@@ -10,7 +10,10 @@ Optional (LESSONS.md 2, 3, 5): hist["dtypes"] numpy dtype per int / float column
 column names; batch["frame"] = {"order": permutation of the frame's columns, "extra": add a non-key column,
 "index_name": name of the frame's index, "range": RangeIndex}; batch["bad"] = {"col": j, "dtype": "bool"|"str"|"category"}
 replaces one key column by an unhashable one; clock kinds "time" | "tz" | "int" | "npint" | "float";
-batch["get_kind"] = container of the `__getitem__` request: "index" | "int32" | "range" | "list" | "array" | "series".
+batch["repr"] = per column the representation THIS batch arrives in (LESSONS.md 13): a numpy dtype for int / float
+columns – an "int" column may arrive as float64 / float32, a "float" column with whole values as int64 / int32 … – or the
+datetime unit "ns" | "us" | "s"; identity of a key is its VALUE (30 == 30.0, same instant in any unit), the hash is the one
+of the batch's own dtype; batch["get_kind"] = container of the `__getitem__` request: "index" | "int32" | "range" | "list" | "array" | "series".
 """
 from __future__ import annotations
 
@@ -78,8 +81,32 @@ def canon_key(types, key):
 
 
 def plain_case_key(types, key):
-    """a key of the case in the form `dump_map` reports keys"""
-    return [[ty, (float(v) if ty == "float" else int(v))] for ty, v in zip(types, key)]
+    """a key of the case as plain values (numbers compare by value: 30 == 30.0; datetimes as ns)"""
+    return [(float(v) if ty == "float" else int(v)) for ty, v in zip(types, key)]
+
+
+def repr_of(hist, b, j):
+    """the dtype (int / float columns) or unit (datetime columns) column j of batch b arrives in"""
+    r = (b.get("repr") or [None] * len(hist["cols"]))[j]
+    if r:
+        return r
+    ty = hist["cols"][j]
+    if ty == "time":
+        return hist.get("tunit", "ns")
+    return (hist.get("dtypes") or [None] * len(hist["cols"]))[j] or NP_DTYPE[ty]
+
+
+def repr_class(r: str) -> str:
+    """what decides the hash: integer (any width), float (any width), datetime per unit"""
+    if r.startswith(("int", "uint")):
+        return "int"
+    if r.startswith("float"):
+        return "float"
+    return "t:" + r
+
+
+def batch_classes(hist, b):
+    return tuple(repr_class(repr_of(hist, b, j)) for j in range(len(hist["cols"])))
 
 
 def col_names(types):
@@ -90,7 +117,7 @@ def names_of(hist):
     return list(hist.get("names") or col_names(hist["cols"]))
 
 
-def mk_frame(types, tunit, sims, keys, names=None, dtypes=None, frame=None, bad=None):
+def mk_frame(types, tunit, sims, keys, names=None, dtypes=None, frame=None, bad=None, reprs=None):
     """the key frame of one batch, in the container / dtype / column-order variant the case asks for"""
     import numpy as np
     import pandas as pd
@@ -107,9 +134,10 @@ def mk_frame(types, tunit, sims, keys, names=None, dtypes=None, frame=None, bad=
             else:
                 data[name] = np.array([f"s{i}" for i in range(len(vals))], dtype=object)
         elif ty == "time":
-            data[name] = pd.to_datetime(np.array(vals, dtype="int64"), unit="ns").as_unit(tunit)
+            data[name] = pd.to_datetime(np.array(vals, dtype="int64"), unit="ns").as_unit((reprs[j] if reprs and reprs[j] else tunit))
         else:
-            data[name] = np.array(vals, dtype=(dtypes[j] if dtypes and dtypes[j] else NP_DTYPE[ty]))
+            dt = (reprs[j] if reprs and reprs[j] else None) or (dtypes[j] if dtypes and dtypes[j] else NP_DTYPE[ty])
+            data[name] = np.array([int(v) for v in vals] if dt.startswith(("int", "uint")) else vals, dtype=dt)
     if frame.get("extra"):
         data["not_a_key"] = [f"x{i}" for i in range(len(keys))]
         data["also_not_a_key"] = np.arange(len(keys), dtype=float)
@@ -191,11 +219,11 @@ def _plain(key):
     out = []
     for v in key:
         if isinstance(v, pd.Timestamp):
-            out.append(["time", int(v.as_unit("ns").value)])
+            out.append(int(v.as_unit("ns").value))
         elif isinstance(v, float):
-            out.append(["float", v])
+            out.append(v)
         else:
-            out.append(["int", int(v)])
+            out.append(int(v))
     return out
 
 
@@ -291,7 +319,7 @@ def run_history(hist, hash_probe=6):
     for b in hist["batches"]:
         t = mk_salt(b["t"], tunit)
         df = mk_frame(types, tunit, b["sims"], b["keys"], names=names, dtypes=hist.get("dtypes"), frame=b.get("frame"),
-                      bad=b.get("bad"))
+                      bad=b.get("bad"), reprs=b.get("repr"))
         rec = observe_update(im, big, df, t, names, hash_probe, probe=not b.get("bad"))
         rec.pop("exc", None)
         if b.get("get") is not None:
@@ -304,24 +332,29 @@ def run_history(hist, hash_probe=6):
 
 
 def batch_of_frame(df, t, names):
-    """(types, batch) describing a key frame handed to `IndexMap.update` by running code, in history form"""
+    """(types, batch) describing a key frame handed to `IndexMap.update` by running code, in history form; the batch
+    records the representation (dtype / datetime unit) its columns arrived in"""
+    import numpy as np
     import pandas as pd
     import pandas.api.types as pdt
-    types, cols = [], []
+    types, cols, reprs = [], [], []
     for c in names:
         col = df[c]
         if pdt.is_datetime64_any_dtype(col):
             types.append("time")
+            reprs.append(np.datetime_data(col.dtype)[0])
             cols.append([int(x) for x in col.astype("datetime64[ns]").astype("int64").tolist()])
         elif pdt.is_integer_dtype(col):
             types.append("int")
+            reprs.append(str(col.dtype))
             cols.append([int(x) for x in col.tolist()])
         else:
             types.append("float")
+            reprs.append(str(col.dtype))
             cols.append([float(x) for x in col.tolist()])
     keys = [[cols[j][i] for j in range(len(names))] for i in range(len(df))]
     tt = ["time", int(pd.Timestamp(t).as_unit("ns").value)] if isinstance(t, pd.Timestamp) else ["int", int(t)]
-    return types, {"t": tt, "sims": [int(x) for x in df.index.tolist()], "keys": keys, "get": None}
+    return types, {"t": tt, "sims": [int(x) for x in df.index.tolist()], "keys": keys, "get": None, "repr": reprs}
 
 
 def instrument(im, log, hash_probe=2):
@@ -363,13 +396,34 @@ def enc_salt(t, salt10):
     return f"c{int(t[1])}_{int(salt10)}"
 
 
-def enc_key(types, key, tens):
-    return ",".join(enc_val(ty, v, ten) for ty, v, ten in zip(types, key, tens))
+def enc_key(types, key, tens, mixed=None, classes=None):
+    """model tokens of one key. A numeric value is sent as `i<v>` (the model applies `_spread` itself) only when the column
+    arrives as integers in EVERY batch of the history; otherwise – float batches, or a column whose representation changes
+    along the history (`mixed`) – as order code of the VALUE plus the ten-digit integer the real helper produced for the
+    batch's own dtype."""
+    out = []
+    for j, (ty, v, ten) in enumerate(zip(types, key, tens)):
+        if ty == "time":
+            out.append(f"c{int(v)}_{int(ten)}")
+        elif (mixed and mixed[j]) or (classes[j] if classes else ty) != "int":
+            out.append(f"c{float_rank(float(v))}_{int(ten)}")
+        else:
+            out.append(f"i{int(v)}")
+    return ",".join(out)
+
+
+def mixed_columns(hist):
+    n = len(hist["cols"])
+    return [len({repr_class(repr_of(hist, b, j)) for b in hist["batches"] if b["sims"] and not b.get("bad")}) > 1 for j in range(n)]
 
 
 def history_lines(hist, obs, name="imap"):
-    """The same history as driver lines; returns (lines, plan) where plan[i] says what reply i answers."""
+    """The same history as driver lines; returns (lines, plan) where plan[i] says what reply i answers.
+    The model's key identity is structural, the real one is by value: a key that is already registered is sent with the
+    tokens it was registered with (the batch is a duplicate and must be rejected, its hash never matters)."""
     types, size = hist["cols"], hist["size"]
+    mixed = mixed_columns(hist) if types else []
+    registered = {}
     L = [f"{name} new {1 if types else 0} {size}"]
     plan = [("new", None)]
     for bi, (b, rec) in enumerate(zip(hist["batches"], obs)):
@@ -382,17 +436,19 @@ def history_lines(hist, obs, name="imap"):
             continue
         if types and b["sims"]:
             tens = rec["ten"]
-            rows = ";".join(f"{int(s)}," + enc_key(types, k, [tens[j][i] for j in range(len(types))])
-                            for i, (s, k) in enumerate(zip(b["sims"], b["keys"])))
+            cks = [canon_key(types, k) for k in b["keys"]]
+            own = [enc_key(types, k, [tens[j][i] for j in range(len(types))], mixed, batch_classes(hist, b)) for i, k in enumerate(b["keys"])]
+            rows = ";".join(f"{int(s)}," + registered.get(ck, tok) for s, ck, tok in zip(b["sims"], cks, own))
+            if len(set(cks)) == len(cks) and not (set(cks) & set(registered)):
+                registered.update(zip(cks, own))
             for i in range(len(rec["probe"]["t_big"])):
-                k = enc_key(types, b["keys"][i], [tens[j][i] for j in range(len(types))])
+                k = own[i]
                 L.append(f"imap hash {size} {salt} {k}"); plan.append(("hash", (bi, "raw", i)))          # noqa: E702
                 L.append(f"imap hash {BIG} {salt} {k}"); plan.append(("hash", (bi, "t_big", i)))        # noqa: E702
                 L.append(f"imap hash {size} i1 {k}"); plan.append(("hash", (bi, "s1", i)))               # noqa: E702
                 L.append(f"imap hash {BIG} i90001 {k}"); plan.append(("hash", (bi, "s90001_big", i)))   # noqa: E702
             for i in range(len(rec["probe"]["t_big"]), len(b["sims"])):
-                k = enc_key(types, b["keys"][i], [tens[j][i] for j in range(len(types))])
-                L.append(f"imap hash {size} {salt} {k}"); plan.append(("hash", (bi, "raw", i)))          # noqa: E702
+                L.append(f"imap hash {size} {salt} {own[i]}"); plan.append(("hash", (bi, "raw", i)))     # noqa: E702
         elif b["sims"]:
             rows = ";".join(f"{int(s)}" for s in b["sims"])
         else:
